@@ -40,7 +40,8 @@ PRJ = {'utm': gc.utm, 'isg': gc.isg}
 AF = {'grs80': (6378137.0, 298.257222101), 'ans': (6378160.0, 298.25)}
 HEIGHTS = [None, 0.0, -12.5, 603.2489]
 NVALS = [None, 0.0, 14.269]
-POS_ANY = [(-0.5, -0.25), (0.4, -0.7), (-33.5, 151.2), (-23.67, 133.88), (-31.999999, 141.000001), (45.5, -73.6), (-79.9, 179.9), (83.9, -179.5), (0.25, 3.0)]
+POS_ANY = [(-0.5, -0.25), (0.4, -0.7), (-33.5, 151.2), (-23.67, 133.88), (-31.999999, 141.000001), (45.5, -73.6), (-79.9, 179.9), (83.9, -179.5), (0.25, 3.0),
+           (60.0, 5.0), (63.5, 10.5), (78.0, 9.0), (75.0, 21.0), (80.0, 33.0)]      # areas of the UTM system's irregular zones (32V, 31X-37X)
 POS_ISG = [(-33.5, 151.2), (-31.999999, 141.000001), (-36.9, 149.9), (-28.2, 153.55)]
 
 
